@@ -18,7 +18,7 @@ import (
 	"pgregory.net/rapid"
 )
 
-func TestMain(m *testing.M)    { vh.Main(m) }
+func TestMain(m *testing.M)   { vh.Main(m) }
 func TestReplay(t *testing.T) { vh.Replay(t) }
 func TestCorpus(t *testing.T) { vh.Corpus(t) }
 
@@ -515,10 +515,10 @@ var treeProp = vh.Define("C11", "tree", func(c TreeCase, r *vh.R) {
 		"map-keys-of-different-encoded-length": ti.ntMap, "boundary-integer": ti.boundary,
 		"map-mixed-key-types": ti.mixedTypes, "nested-map": ti.nestedMap, "dup-key": ti.dup,
 		"invalid-utf8": ti.invalid, "multibyte-utf8": ti.multibyte,
-		"map-caller-order-not-bytewise":   ti.callerNotBytewise,
-		"map-length-first-order-differs":  ti.lenFirstNe,
-		"map-24-or-more-entries":          ti.bigMap,
-		"has-map":                         ti.maps > 0,
+		"map-caller-order-not-bytewise":  ti.callerNotBytewise,
+		"map-length-first-order-differs": ti.lenFirstNe,
+		"map-24-or-more-entries":         ti.bigMap,
+		"has-map":                        ti.maps > 0,
 	} {
 		if on {
 			r.Class(name)
